@@ -1144,3 +1144,80 @@ func E2CloseRewrite(c *core.Ctx, r *core.Report) {
 	r.Count("E2.close-repair-loops", n)
 	r.Floor("E2.close-repair-loops", 1)
 }
+
+// E2CarriedShadow: the variable that carries the pen position to the next command is not shadowed inside the loop.
+func E2CarriedShadow(c *core.Ctx, r *core.Report) {
+	r.Rule("E2.carried-shadow", "in a loop over the commands of a path, a variable declared before the loop that the loop body assigns (`end = …` in the cases) and whose value is read at the top level of the loop body (`start = end` at the tail) carries state from one command to the next. No short variable declaration nested inside the loop body may declare a new variable of the same name: the cases would then fill the shadow, and the carried variable keeps the value of an earlier command (the start point of an arc after a Bézier is then the Bézier's start)")
+	p := c.MustPkg("")
+	info := p.TypesInfo
+	n := 0
+	for _, fd := range core.AllFuncDecls(p) {
+		if fd.Body == nil || strings.HasSuffix(c.Fset.Position(fd.Pos()).Filename, "_test.go") {
+			continue
+		}
+		f := e2Scan(p, fd)
+		if len(f.cmdOwner) == 0 {
+			continue
+		}
+		fname := "canvas." + core.FuncName(fd)
+		ord := 0
+		ast.Inspect(fd.Body, func(m ast.Node) bool {
+			loop, ok := m.(*ast.ForStmt)
+			if !ok {
+				return true
+			}
+			// carried: outer variables read at the top level of the loop body on the RHS of an assignment
+			carried := map[string]types.Object{}
+			for _, st := range loop.Body.List {
+				as, ok := st.(*ast.AssignStmt)
+				if !ok || as.Tok != token.ASSIGN {
+					continue
+				}
+				for _, rh := range as.Rhs {
+					if id, ok := core.Unparen(rh).(*ast.Ident); ok {
+						if o := core.ObjOf(info, id); o != nil && o.Pos() < loop.Pos() && o.Pos() > fd.Pos() {
+							if _, isVar := o.(*types.Var); isVar {
+								carried[id.Name] = o
+							}
+						}
+					}
+				}
+			}
+			if len(carried) == 0 {
+				return true
+			}
+			ord++
+			n++
+			key := fmt.Sprintf("%s|command loop #%d|carried variables not shadowed", fname, ord)
+			bad := ""
+			var badPos token.Pos
+			ast.Inspect(loop.Body, func(k ast.Node) bool {
+				as, ok := k.(*ast.AssignStmt)
+				if !ok || as.Tok != token.DEFINE {
+					return true
+				}
+				for _, l := range as.Lhs {
+					id, ok := l.(*ast.Ident)
+					if !ok {
+						continue
+					}
+					if outer, isCarried := carried[id.Name]; isCarried {
+						if def := info.Defs[id]; def != nil && def != outer && bad == "" {
+							bad = id.Name
+							badPos = as.Pos()
+						}
+					}
+				}
+				return true
+			})
+			if bad == "" {
+				r.OK("E2.carried-shadow", key, c.Pos(loop.Pos()), "")
+			} else {
+				r.Fail("E2.carried-shadow", key, c.Pos(badPos), fmt.Sprintf("`%s :=` inside the loop declares a new variable that shadows the `%s` the loop carries to the next command: the tail of the loop copies the stale outer value", bad, bad))
+			}
+			return true
+		})
+	}
+	r.Count("E2.carried-loops", n)
+	r.Floor("E2.carried-loops", 6)
+}
